@@ -184,3 +184,7 @@ def run(chk, repo):
     chk.ob('C17.e', 'CIRCexplorer3.is_valid accepts only if fpb_circ and circ_score pass AND the read-number test of the base class passes', v3.where, bad is None,
            'a path of is_valid returns something other than False without all three threshold verdicts being conjoined (a later verdict overwrites an earlier one)',
            key=v3.qual + '::conjunction', path=bad.describe(v3.module.relpath) if bad else None, fn=v3.qual)
+    # ------------------------------------------------------------------ shared: option plumbing by name
+    from rules.shared import optname
+    chk.clauses.append('C17.f (shared R-THREAD) an option value bound to a name that is itself a CLI option carries that very option')
+    optname(chk, repo, 'C17.f', ['cli.parse_circexplorer'], floor=0)
